@@ -148,6 +148,10 @@ pub fn node(args: &Args) {
         policy.global_velocity_control = VelocityControlSpec { limit_msat: p_limit, interval_type: p_it };
         policy.fee_velocity_control = VelocityControlSpec { limit_msat: f_limit, interval_type: f_it };
         policy.max_feerate_per_kw = 4_000_000_000;
+        // one case in four under a filter whose strict rule shadows the permissive one: nothing is downgraded
+        if case % 4 == 3 {
+            policy.filter = shadowed_permissive_filter();
+        }
         let mut seed = [0u8; 32];
         seed[0] = (case % 251) as u8;
         let world = World::new(policy, seed, KeyDerivationStyle::Native);
